@@ -174,7 +174,7 @@ func checkReleased(w *World, what string) {
 func init() {
 	register(&CheckDef{ID: "C11", Level: "fault_enumeration", Engine: "A", Draw: drawC11,
 		Rule:     "random part: 1-8 connections of random kinds (C16 kinds) in parallel, aborted by FIN or RST at random byte offsets or stalled, handshake timeout in {off,1s,10s} and idle timeout in {2s,30s,180s} through the real flags; oracle: once every client has gone and simulated time has advanced (<= 217 s) every accepted connection has been closed by the proxy and the goroutine census (stable at quiescence) shows no serveConn / http2 serverConn / net/http conn / persistConn goroutine. Non-trivial: at least one fault fired. Distinct: distinct controller action-label sequences.",
-		EnumRule: "enumerated part: a client abort (FIN and RST) at EVERY byte offset of the client->proxy stream of a fixed HTTP/1.1 session, a fixed HTTP/2 session (two requests each) and a fixed HTTP/1.1 session that upgrades the protocol (101 through the reverse proxy, then two messages through the tunnel); a silent stall at every byte offset of the handshake for handshake timeouts 1s and 10s (the proxy must hang up at the timeout, not earlier); a silent stall at EVERY byte offset of the three sessions that lasts 12 s or 75 s before the client goes away by FIN or RST (everything must be released afterwards); an idle connection after served requests for idle timeouts 2s and 30s on both protocols, the last stream ending normally, by a client RST_STREAM, by a server RST_STREAM or with a HEADERS frame refused before a stream exists (the proxy must close it at the timeout). Quick tier: stride sample; thorough tier: every index.",
+		EnumRule: "enumerated part: a client abort (FIN and RST) at EVERY byte offset of the client->proxy stream of a fixed HTTP/1.1 session, a fixed HTTP/2 session (two requests each) and a fixed HTTP/1.1 session that upgrades the protocol (101 through the reverse proxy, then two messages through the tunnel); a silent stall at every byte offset of the handshake for handshake timeouts 1s and 10s (the proxy must hang up at the timeout, not earlier); a silent stall at EVERY byte offset of the three sessions that lasts 12 s or 75 s before the client goes away by FIN or RST (everything must be released afterwards); an idle connection after served requests for idle timeouts 2s and 30s on both protocols, the last stream ending normally, by a client RST_STREAM, by a server RST_STREAM, with a HEADERS frame refused before a stream exists, or after two streams that were open at the same time (the proxy must close it at the timeout). Quick tier: stride sample; thorough tier: every index.",
 		Enum:     &EnumDef{Params: faultParams, Count: c11Count, Case: c11Case}})
 }
 
@@ -232,13 +232,13 @@ func c11Decode(p map[string]int, i int) faultCase {
 		}
 		i -= n
 	}
-	s := []string{"h1", "h2", "h2", "h2", "h2"}[i/2%5]
-	how := []string{"", "", "client_rst", "server_rst", "refused"}[i/2%5]
+	s := []string{"h1", "h2", "h2", "h2", "h2", "h2"}[i/2%6]
+	how := []string{"", "", "client_rst", "server_rst", "refused", "overlap"}[i/2%6]
 	return faultCase{Kind: "idle", Session: s, How: how, Timeout: []int{2, 30}[i%2]}
 }
 
 func c11Count(p map[string]int) int {
-	return 4*(p["h1_total"]+1) + 4*(p["h2_total"]+1) + 4*(p["h1up_total"]+1) + 2*p["h1_hs"] + 2*p["h2_hs"] + 10
+	return 4*(p["h1_total"]+1) + 4*(p["h2_total"]+1) + 4*(p["h1up_total"]+1) + 2*p["h1_hs"] + 2*p["h2_hs"] + 12
 }
 
 func c11Case(p map[string]int, i int) *Case {
@@ -290,6 +290,16 @@ func c11Case(p map[string]int, i int) *Case {
 		steps := cp.Steps[:len(cp.Steps)-1]
 		cp.Steps = append([]Step{}, steps...)
 		switch fc.How {
+		case "overlap":
+			// two streams open at the same time before the silence: the first one's answer is
+			// held back in the back-end until the second request has arrived as well
+			plan.Backend.Resp = map[string]*RespPlan{"c0-r2": {Status: 200, Body: []byte("held"), Hold: true}}
+			enc := NewHEnc()
+			enc.enc.SetMaxDynamicTableSize(0)
+			r2 := ReqSpec{Tag: "c0-r2", Method: "GET", Path: "/c", Host: "fixed.verif.test"}
+			r3 := ReqSpec{Tag: "c0-r3", Method: "GET", Path: "/d", Host: "fixed.verif.test"}
+			fs := append(H2RequestFrames(enc, 5, r2, nil, nil, nil, nil), H2RequestFrames(enc, 7, r3, nil, nil, nil, nil)...)
+			cp.Steps = append(cp.Steps, Step{Kind: "write", Pieces: [][]byte{FramesBytes(fs...)}}, Step{Kind: "h2await", Streams: []uint32{5, 7}})
 		case "client_rst":
 			// the last stream to close is one the client cancels while its handler is parked
 			plan.Backend.Resp = map[string]*RespPlan{"c0-r2": {Status: 200, Body: []byte("never"), Park: true}}
